@@ -82,7 +82,8 @@ def generate(seed, tier):
             body = gen_doc_ops(wrng, cfg, dg, wrng.randint(1, 8), list(range(12)), groups=(fe != "serialmp"))
             txs.append({"body": body, "end": ["commit", {"merge": wrng.choice(merges)}]})
         rec["txs"] = txs
-        rec["fe_args"] = {"procs": mrng.randint(2, 4), "batchsize": mrng.randint(1, 7)}
+        # k = how many run files a sub-writer merges at a time when it reduces its sort pool to one run
+        rec["fe_args"] = {"procs": mrng.randint(2, 4), "batchsize": mrng.randint(1, 7), "k": mrng.choice((64, 64, 2, 3, 5))}
     elif fe in ("buffered", "bufferedN"):
         nthreads = 1 if fe == "buffered" else mrng.randint(2, 3)
         threads = []
@@ -180,6 +181,8 @@ class PlainLike(object):
         a = self.record.get("fe_args") or {}
         if fe == "plain":
             return ix.writer(**kw)
+        if fe in ("mp", "mpmulti", "serialmp") and a.get("k", 64) != 64:
+            kw = dict(kw, k=a["k"])
         if fe in ("mp", "mpmulti"):
             from whoosh.multiproc import MpWriter
             return MpWriter(ix, procs=a.get("procs", 2), batchsize=a.get("batchsize", 3),
